@@ -276,8 +276,11 @@ def _objective_bound(obj_items, lo, hi, sign):
     return b
 
 
-def enumerate_ilp(p, observed, maximize, node_cap=5_000_000):
-    """Return Result with all optimal classes (projection on `observed`)."""
+def enumerate_ilp(p, observed, maximize, node_cap=5_000_000, gap=0):
+    """Return Result with all optimal classes (projection on `observed`).
+    gap > 0 (scaled objective units): the back end was told it may stop within
+    `gap` of the optimum, so every feasible class within the gap is an answer
+    it is entitled to give."""
     sign = 1 if maximize else -1      # maximise sign*objective
     obj_items = sorted(p.obj.items())
     obj_cols = [c for c, a in obj_items if a != 0]
@@ -349,7 +352,7 @@ def enumerate_ilp(p, observed, maximize, node_cap=5_000_000):
         if k == len(observed):
             if best[0] is not None:
                 ub = _objective_bound(obj_items, lo, hi, sign)
-                if ub < best[0]:
+                if ub < best[0] - gap:
                     # feasibility of this observed vector still matters for
                     # the count only; skip the count to keep pruning cheap
                     return
@@ -360,9 +363,12 @@ def enumerate_ilp(p, observed, maximize, node_cap=5_000_000):
             val, vec = r
             if best[0] is None or val > best[0]:
                 best[0] = val
-                del classes[:]
-            if val == best[0]:
-                classes.append(vec)
+                if gap:
+                    classes[:] = [c for c in classes if c[0] >= val - gap]
+                else:
+                    del classes[:]
+            if val >= best[0] - gap:
+                classes.append((val, vec))
             return
         c = observed[k]
         for v in range(lo[c], hi[c] + 1):
@@ -383,7 +389,9 @@ def enumerate_ilp(p, observed, maximize, node_cap=5_000_000):
     res.status = "Optimal"
     res.optimum = sign * best[0] / getattr(p, "obj_scale", 1) \
         if getattr(p, "obj_scale", 1) != 1 else sign * best[0]
-    res.classes = classes
+    # best classes first (class 0 is always a true optimum)
+    classes.sort(key=lambda c: -c[0])
+    res.classes = [c[1] for c in classes]
     return res
 
 
@@ -450,16 +458,25 @@ _MEMO = {}
 _MEMO_MAX = 20000
 
 
-def solve_text(text, observed, maximize):
+def solve_text(text, observed, maximize, gap_abs=0.0, gap_rel=0.0):
     key = (hashlib.blake2b(text.encode(), digest_size=16).digest(),
-           tuple(observed), maximize)
+           tuple(observed), maximize, gap_abs, gap_rel)
     hit = _MEMO.get(key)
     if hit is not None:
         CTX.memo_hits += 1
         return hit
     try:
         p = parse_mps(text)
-        r = enumerate_ilp(p, observed, maximize)
+        gap = 0
+        if gap_abs or gap_rel:
+            # CBC stops when best - incumbent <= allowable gap; in scaled
+            # integer objective units that admits every class within floor(gap)
+            exact = enumerate_ilp(p, observed, maximize)
+            g = gap_abs
+            if gap_rel and exact.optimum is not None:
+                g = max(g, gap_rel * abs(exact.optimum))
+            gap = int(math.floor(g * getattr(p, "obj_scale", 1) + 1e-9))
+        r = enumerate_ilp(p, observed, maximize, gap=gap)
         val = (p, r, None)
     except MPSReject as e:
         val = (None, None, str(e))
@@ -509,12 +526,18 @@ def fake_cbc_main(args):
     tl = None
     if "-sec" in args:
         tl = float(args[args.index("-sec") + 1])
+    gap_abs = float(args[args.index("-allow") + 1]) if "-allow" in args else 0.0
+    gap_rel = float(args[args.index("-ratio") + 1]) if "-ratio" in args else 0.0
+    for opt in ("-maxN", "-maxNodes", "-maxSolutions", "-maxSol"):
+        if opt in args:
+            raise HarnessError("FakeCBC: back-end option %s is not modelled" % opt)
     with open(mps) as f:
         text = f.read()
     k = len(CTX.solves)
     observed, vs = _observed_indices()
-    p, r, reject = solve_text(text, observed, maximize)
-    rec = {"k": k, "maximize": maximize, "timelimit": tl}
+    p, r, reject = solve_text(text, observed, maximize, gap_abs, gap_rel)
+    rec = {"k": k, "maximize": maximize, "timelimit": tl,
+           "gap": (gap_abs, gap_rel) if (gap_abs or gap_rel) else None}
     CTX.solves.append(rec)
     CTX.last_text = text
     CTX.last_problem = p
